@@ -509,7 +509,8 @@ func genScript(r *vh.Rand) Case {
 	return Case{Op: "script", Kind: "script", Script: s, Sum: sum, TxType: -1}
 }
 
-var schModes = []string{"honest", "honest", "honest", "repo", "repo", "s+1", "s+l", "otherR", "otherKey", "otherMsg", "badR"}
+var schModes = []string{"honest", "honest", "honest", "honest", "repo", "repo", "repo", "s+1", "s+l", "otherR", "otherKey", "otherMsg", "badR",
+	"torsionR", "torsionKey", "mixedR", "mixedKey", "noncanonR"}
 
 func genSch(r *vh.Rand, batch bool) Case {
 	n := 1
@@ -665,7 +666,7 @@ func corpus() []Case {
 		{"fffe", 1}, {"", 0}, {"fffe0100", 1}, {"fefe01", 1}, {"ffff01", 1}} {
 		out = append(out, Case{Op: "script", Kind: "script", Script: sc.s, Sum: sc.sum, TxType: -1})
 	}
-	for _, m := range []string{"honest", "repo", "s+1", "s+l", "otherR", "otherKey", "otherMsg", "badR"} {
+	for _, m := range []string{"honest", "repo", "s+1", "s+l", "otherR", "otherKey", "otherMsg", "badR", "torsionR", "torsionKey", "mixedR", "mixedKey", "noncanonR"} {
 		a, k := newPriv(r), newPriv(r)
 		out = append(out, Case{Op: "verify", Kind: "verify", Msg: hex.EncodeToString(r.Bytes(32)), TxType: -1,
 			Entries: []SchEntry{{Priv: hex.EncodeToString(a[:]), Nonce: hex.EncodeToString(k[:]), Mode: m}}})
